@@ -84,6 +84,46 @@ pub fn run_seg(toks: &[&str]) -> String {
     format!("O:{} K:{} N:{}", o, k, n)
 }
 
+/// sgo <path> real_s real_n mono_s mono_n <what> : a client attaches; before its first call the header changes
+/// under it (1: the generation turns odd, 2: the version reads 0, 3: the generation reads 0); it has no
+/// snapshot yet, so it answers from the empty record.  -> K:<open result> N:<now result>
+pub fn run_sgo(toks: &[&str]) -> String {
+    use std::os::unix::fs::FileExt;
+    let path = toks[0];
+    let t: Vec<i64> = toks[1..6].iter().map(|s| p::<i64>(s)).collect();
+    let (k, n) = match std::panic::catch_unwind(|| ClockBoundClient::new_with_path(path)) {
+        Err(_) => ("panic".to_string(), "-".to_string()),
+        Ok(Err(e)) => (cb_err(e), "-".to_string()),
+        Ok(Ok(mut c)) => {
+            let f = std::fs::OpenOptions::new().read(true).write(true).open(path).expect("segment file");
+            let mut g = [0u8; 2];
+            f.read_exact_at(&mut g, 14).expect("generation");
+            match t[4] {
+                1 => f.write_all_at(&(u16::from_ne_bytes(g) | 1).to_ne_bytes(), 14).expect("poke"),
+                2 => f.write_all_at(&[0, 0], 12).expect("poke"),
+                3 => f.write_all_at(&[0, 0], 14).expect("poke"),
+                _ => (),
+            }
+            vclock::set_real(t[0], t[1]);
+            vclock::set_mono(t[2], t[3]);
+            vclock::enable(true);
+            let r = std::panic::catch_unwind(std::panic::AssertUnwindSafe(|| c.now()));
+            vclock::enable(false);
+            let n = match r {
+                Err(_) => "panic".to_string(),
+                Ok(Err(e)) => cb_err(e),
+                Ok(Ok(n)) => {
+                    let e: libc::timespec = *n.earliest.as_ref();
+                    let l: libc::timespec = *n.latest.as_ref();
+                    format!("ok:{}:{}:{}:{}:{}", e.tv_sec, e.tv_nsec, l.tv_sec, l.tv_nsec, n.clock_status as i64)
+                }
+            };
+            ("ok".to_string(), n)
+        }
+    };
+    format!("K:{} N:{}", k, n)
+}
+
 pub fn run_wrt(toks: &[&str]) -> String {
     let path = toks[0];
     let t: Vec<i64> = toks[1..8].iter().map(|s| p::<i64>(s)).collect();
